@@ -164,10 +164,14 @@ theorem opOK_viaBuilder (h : Heap) (o : Option V) : OpOK h (Impl.viaBuilder h o)
   | none => exact OpOK.same (live_err h)
   | some v => exact opOK_finishV h v
 
-theorem opOK_pureOther (h : Heap) (o : Option V) : OpOK h (Impl.pureOther h o) := by
+theorem opOK_joinResult (h : Heap) (o : Option V) : OpOK h (Impl.joinResult h o) := by
   cases o with
   | none => exact OpOK.same (live_err h)
-  | some v => exact OpOK.same (live_other h v)
+  | some v =>
+    simp only [Impl.joinResult]
+    split
+    · exact opOK_asSeq _ _ _
+    · exact OpOK.same (live_other h v)
 
 theorem opOK_freshSeq (orc : Oracle) (k : Kind) (h : Heap) (xs : List V) : OpOK h (Impl.freshSeq orc k h xs) := by
   unfold Impl.freshSeq
@@ -458,7 +462,7 @@ theorem opOK_run1 (orc : Oracle) (st : Impl.St) (inv : Inv st) (op : Op) : OpOK 
   | smap i f => exact opOK_smapV st.h _ f
   | concat i j => exact opOK_viaBuilder _ _
   | union i j => exact opOK_unionV orc st.h _ _ (inv.getD i) (inv.getD j)
-  | join i j => exact opOK_pureOther _ _
+  | join i j => exact opOK_joinResult _ _
   | rest i k => exact OpOK.same (live_restV st.h _ k false (inv.getD i))
   | front i k => exact OpOK.same (live_restV st.h _ k true (inv.getD i))
   | trimPrefix p s =>
@@ -563,5 +567,83 @@ theorem opOK_run1 (orc : Oracle) (st : Impl.St) (inv : Inv st) (op : Op) : OpOK 
         | B => exact opOK_viaBuilder _ _
         | A => exact opOK_viaBuilder _ _
     · exact OpOK.same (live_err _)
+
+/-! ### what the repaired `with` computes -/
+
+section WithValue
+open Impl
+theorem getD_snoc_self (h : Heap) (x : List Cell) : (h ++ [x]).getD h.length [] = x := by simp [List.getD]
+
+theorem getD_updArr_eq (h : Heap) (a : Nat) (f : List Cell → List Cell) (ha : a < h.length) :
+    (updArr h a f).getD a [] = f (h.getD a []) := by
+  induction h generalizing a with
+  | nil => simp at ha
+  | cons x r ih =>
+    cases a with
+    | zero => simp [updArr]
+    | succ a => simpa [updArr] using ih a (by simpa using ha)
+
+theorem overwrite_nil (xs : List Cell) (k : Nat) : overwrite xs k [] = xs := by
+  induction xs generalizing k with
+  | nil => rfl
+  | cons x r ih => cases k <;> simp [overwrite, ih]
+
+theorem overwrite_zero_replicate (n : Nat) (z : Cell) (cs : List Cell) (h : cs.length ≤ n) :
+    overwrite (List.replicate n z) 0 cs = cs ++ List.replicate (n - cs.length) z := by
+  induction cs generalizing n with
+  | nil => simp [overwrite_nil]
+  | cons c r ih =>
+    cases n with
+    | zero => simp at h
+    | succ n => simp [List.replicate_succ, overwrite, ih n (by simpa using h)]
+
+theorem overwrite_at_end (cs rest : List Cell) (c x : Cell) :
+    overwrite (cs ++ x :: rest) cs.length [c] = cs ++ c :: rest := by
+  induction cs with
+  | nil => simp [overwrite, overwrite_nil]
+  | cons a r ih => simp [overwrite, ih]
+
+/-- the repaired `String.with` / `Bytes.with` at the end: the result reads as the old contents followed by the new
+element (for a slice that lies inside its array) — so the "copy" is a copy -/
+theorem seqWith_end_cells (orc : Oracle) (k : Kind) (h : Heap) (s : Slice) (off : Int) (aux : Nat) (c : V)
+    (hlen : (read h s).length = s.len) :
+    cells (seqWith true orc k h s off aux (off + s.len) c).1 (seqWith true orc k h s off aux (off + s.len) c).2
+      = read h s ++ [some c] := by
+  have hi : index off s.len (off + s.len) = s.len := by
+    have e : off + (s.len : Int) - off = (s.len : Int) := by omega
+    simp [index, e]
+  unfold seqWith
+  simp only [hi]
+  have h1 : ¬ ((0:Int) ≤ (s.len:Int) ∧ (s.len:Int) < (s.len:Int) ∧ (read h s)[(s.len:Int).toNat]? = some (some c)) := by
+    intro hh; omega
+  rw [if_neg h1]
+  simp only [if_true]
+  -- the two appends are in place, inside the array made for the result
+  have e2 : append orc k.zero (mkSlice h k.zero 0 (1 + s.len)).1 (mkSlice h k.zero 0 (1 + s.len)).2 (read h s)
+      = (store (h ++ [List.replicate (1 + s.len) k.zero]) ⟨h.length, 0, 0, 1 + s.len⟩ 0 (read h s),
+         ⟨h.length, 0, s.len, 1 + s.len⟩) := by
+    simp [append, mkSlice, hlen]
+  rw [e2]
+  have e3 : append orc k.zero (store (h ++ [List.replicate (1 + s.len) k.zero]) ⟨h.length, 0, 0, 1 + s.len⟩ 0 (read h s))
+      ⟨h.length, 0, s.len, 1 + s.len⟩ [some c]
+      = (store (store (h ++ [List.replicate (1 + s.len) k.zero]) ⟨h.length, 0, 0, 1 + s.len⟩ 0 (read h s))
+          ⟨h.length, 0, s.len, 1 + s.len⟩ s.len [some c], ⟨h.length, 0, s.len + 1, 1 + s.len⟩) := by
+    simp [append]; omega
+  rw [e3]
+  clear e2 e3 h1
+  generalize read h s = cs at hlen ⊢
+  simp only [cells, read, store]
+  rw [getD_updArr_eq _ _ _ (by simp [length_updArr]), getD_updArr_eq _ _ _ (by simp), getD_snoc_self]
+  simp only [Nat.zero_add, List.drop_zero]
+  rw [overwrite_zero_replicate _ _ _ (by omega)]
+  have e : 1 + s.len - cs.length = 1 := by omega
+  rw [e]
+  simp only [List.replicate_one]
+  have hl := overwrite_at_end cs [] (some c) k.zero
+  rw [hlen] at hl
+  rw [hl]
+  exact List.take_of_length_le (by simp [hlen])
+
+end WithValue
 
 end Arrai.C03
